@@ -3,7 +3,7 @@ import sys
 
 from . import lib
 
-DRIVERS = [("vdrive", "plain"), ("vdrive", "asan"), ("vd_threads", "plain"), ("vd_threads", "tsan"), ("vd_engines", "plain"), ("vd_arith", "plain")]
+DRIVERS = [("vdrive", "plain"), ("vdrive", "asan"), ("vd_threads", "plain"), ("vd_threads", "tsan"), ("vd_engines", "plain"), ("vd_arith", "plain"), ("vd_dispatch", "plain")]
 
 
 def main():
